@@ -105,6 +105,7 @@ func (server *Server) Start() error {
 	if err != nil {
 		return err
 	}
+	verifPoint("start.opened", nil)
 
 	if server.IsPortEnabled() {
 		go server.serve()
@@ -122,6 +123,7 @@ func (server *Server) Stop() error {
 	if err := server.ConnManager.Stop(); err != nil {
 		return err
 	}
+	verifPoint("stop.conns-closed", nil)
 
 	if err := server.close(); err != nil {
 		return err
@@ -137,6 +139,7 @@ func (server *Server) Stop() error {
 		log.Infof("%s/%s (%s) terminated", PackageName, Version, addr)
 	}
 
+	verifPoint("stop.return", nil)
 	return nil
 }
 
@@ -209,12 +212,14 @@ func (server *Server) serve() error {
 	defer server.close()
 
 	l := server.portListener
+	verifPoint("serve.enter", l)
 	for {
 		if l == nil {
 			break
 		}
 		conn, err := l.Accept()
 		if err != nil {
+			verifPoint("serve.accept-error", l)
 			return err
 		}
 
@@ -228,19 +233,24 @@ func (server *Server) serve() error {
 func (server *Server) tlsServe() error {
 	defer server.close()
 	l := server.tlsPortListener
+	verifPoint("tlsserve.enter", l)
 	for {
 		if l == nil {
 			break
 		}
 		conn, err := l.Accept()
 		if err != nil {
+			verifPoint("tlsserve.accept-error", l)
 			return err
 		}
 
 		tlsConn := tls.Server(conn, server.tlsConfig)
+		verifPoint("tls.handshake.begin", conn)
 		if err := tlsConn.Handshake(); err != nil {
+			verifPoint("tls.handshake.end", err)
 			return err
 		}
+		verifPoint("tls.handshake.end", nil)
 		tlsState := tlsConn.ConnectionState()
 
 		go server.receive(tlsConn, &tlsState)
@@ -256,6 +266,7 @@ func (server *Server) receive(conn net.Conn, tlsState *tls.ConnectionState) erro
 	handlerConn := newConnWith(conn, tlsState)
 	defer func() {
 		handlerConn.Close()
+		verifPoint("recv.closed", handlerConn)
 	}()
 
 	handlerConn.SetAuthrized(!isPasswdRequired)
@@ -270,9 +281,11 @@ func (server *Server) receive(conn net.Conn, tlsState *tls.ConnectionState) erro
 		}
 	}
 
+	verifPoint("recv.before-register", handlerConn)
 	server.AddConn(handlerConn)
 	defer func() {
 		server.RemoveConn(handlerConn)
+		verifPoint("recv.after-deregister", handlerConn)
 	}()
 
 	log.Debugf("%s/%s (%s) accepted", PackageName, Version, conn.RemoteAddr().String())
